@@ -99,6 +99,9 @@ func (f *Dotimes) Call(s *slip.Scope, args slip.List, depth int) slip.Object {
 			}
 		}
 	}
+	if max < 0 {
+		max = 0 // the variable is the number of times the body was executed
+	}
 	ns.UnsafeLet(sym, slip.Fixnum(max))
 
 	return ns.Eval(rform, d2)
